@@ -115,6 +115,15 @@ pub fn run<A: Cx>(d: &mut Drv<A>, scale: usize, all_offsets: bool) {
             d.emit(json!({"op": "toowned", "dst": 3, "src": sl(1, off, off + n), "via": via}));
             d.emit(json!({"op": "intoraw", "r": 3}));
         }
+        // handed over from bitvec's own types: an owned bit vector (with and without spare capacity), a
+        // bit slice that starts anywhere inside a word
+        for (via, pad) in [("bv", 0), ("bv", off * w % 64 + 1), ("bvcap", 3), ("bs", 0), ("bs", off * w % 64 + 1), ("bs", 64 + 5), ("bs", 1)] {
+            let xs = d.rand_syms(n);
+            d.emit(json!({"op": "fromsyms", "dst": 3, "c": A::NAME, "via": via, "pad": pad, "syms": xs}));
+            d.emit(json!({"op": "intoraw", "r": 3}));
+            d.emit(json!({"op": "clone", "dst": 7, "r": 3}));
+            d.emit(json!({"op": "intoraw", "r": 7}));
+        }
         // results of reverse / complement of an offset slice
         d.emit(json!({"op": "copying", "dst": 4, "src": sl(1, off, off + n), "t": "rev", "via": "slice"}));
         d.emit(json!({"op": "intoraw", "r": 4}));
